@@ -101,6 +101,26 @@ func (m *machine) intrinsic(name string, fn *ssa.Function, args []value, pos tok
 			return iface{}, true
 		}
 		return m.mkError("close: file already closed"), true
+	case "(*archive/zip.File).Open":
+		// zip content model (environment stub): a member's content is what the harness registered for its
+		// name with vZipContent; decompression, CRC and the central directory are outside the claim
+		if m.inInit {
+			break
+		}
+		p, _ := args[0].(*value)
+		if p == nil {
+			m.fail("panic.nil", pos)
+		}
+		name, _ := (*p).(agg)[0].(agg)[0].(string)
+		content, ok := m.zipContents[name]
+		if !ok {
+			return tup{iface{}, m.mkError("zip: member has no registered content: " + name)}, true
+		}
+		m.st.fnSeen["model:archive/zip member content supplied by the harness (vZipContent)"] = true
+		rd := m.call(m.eng.lookupFunc("bytes", "NewReader"), []value{bytesToSlice(strBytes(content))}, nil, pos)
+		nc := m.eng.lookupFunc("io", "NopCloser")
+		rt := m.eng.lookupFunc("bytes", "NewReader").Signature.Results().At(0).Type()
+		return tup{m.call(nc, []value{iface{t: rt, v: rd}}, nil, pos), iface{}}, true
 	case "(*encoding/xml.Decoder).DecodeElement":
 		if m.inInit {
 			break
@@ -606,6 +626,16 @@ func (m *machine) harnessRT(short string, fn *ssa.Function, args []value, pos to
 		return nil, true
 	case "vIsSymbolic":
 		return bv{c: true}, true
+	case "vZipContent":
+		if m.zipContents == nil {
+			m.zipContents = map[string]value{}
+		}
+		name, ok := args[0].(string)
+		if !ok {
+			panic(abortPath{"unsupported:vZipContent with symbolic name"})
+		}
+		m.zipContents[name] = args[1]
+		return nil, true
 	case "vOpenFiles":
 		return mkInt(int64(len(m.openFiles))), true
 	}
